@@ -33,8 +33,8 @@ pub fn world() -> World {
         ],
         rule: "one run = one item sequence (narrow/wide/zero-width characters, newline, tab, glyphs with fallback, images, SGR sequences) written through one of the writers into a drawn view (plain, offset, view of view, transposed) of a sentinel-filled canvas under the whole-buffer schedule and k drawn schedules, or one Text laid out with a drawn width and rendered into a surface of exactly the reported size; non-trivial = a cut fell inside a UTF-8 character or escape sequence, or the text wrapped / dropped cells; distinct = distinct hash of (item kinds, view kind, writer kind, cut classes)",
         runs: |_, tier| match tier {
-            Tier::Quick => 200_000,
-            Tier::Thorough => 6_000_000,
+            Tier::Quick => 800_000,
+            Tier::Thorough => 20_000_000,
         },
         features: &[],
     }
